@@ -420,6 +420,11 @@ func (c *ctx) probeServerName(sb *strings.Builder) {
 			hist(explicit, []sess{a})
 			for _, b := range sniUniverse {
 				hist(explicit, []sess{a, b})
+				// (three sessions: in particular the patterns A,B,A and A,A,B — a value that is
+				// restored, cached per domain or changed by every second call shows here)
+				for _, c3 := range sniUniverse {
+					hist(explicit, []sess{a, b, c3})
+				}
 			}
 		}
 	}
